@@ -71,6 +71,11 @@ CHECKS = {
    note="Only tracker-governed memory; quick tier samples ~120 limits per stream from the sorted set (thorough: all).",
    technique="exhaustive enumeration of outcome-changing limits x call histories",
    design_ref="4/C13", engine="mc"),
+ "C07": dict(category="model_checking",
+   text="Every pool task order within 2 (quick) / 3 (thorough) deviations of FIFO, on the real renderer driven through a cfg-gated sequential pool whose every decision (which pending scope task / for_each element runs next, whether a fire-and-forget reference render is deferred and when it runs, whether per-worker scratch is re-created) is owned by a choice tape; 25 scenarios: multi-group, multi-pass, squeeze, local-tree frames, animations and layered images with reference chains, and multi-group streams with each section corrupted in turn; every keyframe rendered twice. Oracle: each call's Ok/Err and sample bits identical to the pool-less render. Plus free-running renders on real rayon pools of several sizes (supporting, sampling).",
+   note="The sequential pool decides order-dependence (last/first finisher, stale scratch, early/late background renders), not true data races or rayon-internal interleavings; those are only sampled by the rayon runs. Modular-only corpus.",
+   technique="exhaustive enumeration of pool task orders up to a deviation bound on the real renderer (controlled sequential pool), differential vs pool-less render",
+   design_ref="2.3, 4/C07", engine="mc"),
 }
 NOT_YET = "check not built yet in this round (work in progress; see DESIGN.md section 10)"
 NA = {}
